@@ -441,7 +441,11 @@ class Interp:
         if op == "try":
             return self._try(st, ctx, path)
         if op == "raise":
-            raise self._mk_exc(st["exc"])
+            # "from_inv": code that only fails from a later invocation on (a dependency that went away, a deployment
+            # that changed) - e.g. while the body of a context recorded with ReplayChildren is run again
+            if st.get("from_inv") is None or self.run.inv >= st["from_inv"]:
+                raise self._mk_exc(st["exc"])
+            return None
         if op == "threads":
             # several user threads issuing operations on the SAME context (the SDK's ordered counter exists for this)
             import threading as _th
